@@ -591,6 +591,56 @@ func (r *runner) opBatch(n int) {
 		r.s.Count("batch_same_key_twice", 1)
 	}
 	r.s.Distinct("batch size=%s same-key-twice=%v", sizeClass(len(ops)), dup)
+	// the same batch objects written a second time, after one of their keys was changed directly and
+	// (sometimes) more operations were added: both backends must do the same with a batch that is reused
+	// (in this tree: every accumulated operation is applied again, in order)
+	if len(ops) > 0 && r.rng.Chance(1, 5) {
+		k := ops[r.rng.Intn(len(ops))].k
+		if r.rng.Bool() {
+			v := r.value()
+			r.logf("  (after Write) Set(%q,%q)", k, v)
+			for _, b := range r.bs {
+				b.db.Set(cp(k), cp(v))
+			}
+			r.mod.set("Set", k, v)
+		} else {
+			r.logf("  (after Write) Delete(%q)", k)
+			for _, b := range r.bs {
+				b.db.Delete(cp(k))
+			}
+			r.mod.del("Delete", k)
+		}
+		all := append([]batchOp{}, ops...)
+		for j := r.rng.Intn(3); j > 0; j-- {
+			o := batchOp{false, r.key(), r.value()}
+			if r.rng.Chance(1, 3) {
+				o = batchOp{true, ops[r.rng.Intn(len(ops))].k, nil}
+			}
+			all = append(all, o)
+			for i := range r.bs {
+				if o.del {
+					batches[i].Delete(cp(o.k))
+				} else {
+					batches[i].Set(cp(o.k), cp(o.v))
+				}
+			}
+		}
+		r.logf("  batch.Write() again (%d operations accumulated)", len(all))
+		for i := range r.bs {
+			batches[i].Write()
+		}
+		for _, o := range all {
+			if o.del {
+				r.mod.del("batch.Delete(rewritten)", o.k)
+			} else {
+				r.mod.set("batch.Set(rewritten)", o.k, o.v)
+			}
+		}
+		r.s.Count("batch_written_twice", 1)
+		for _, o := range all {
+			r.getOne(o.k)
+		}
+	}
 }
 
 func (r *runner) iterate(opKey, what string, p []byte, withInit bool, wantInit *entry, want []entry, open func(db dbm.DB) dbm.Iterator, each func(db dbm.DB, k []byte)) (mismatch bool) {
